@@ -43,6 +43,7 @@ def sortStrs (l : List String) : List String := l.foldr insertStr []
 /-- canonical key of `sig.ToBytes()` -/
 def sigKey : Option Sig → String
   | none => "nil"
+  | some (.multi _ []) => "nil"     -- an empty multi-signature serialises to no bytes, like no signature
   | some (.multi _ es) => "m[" ++ joinWith "," (es.map (fun e => toString e.bytes)) ++ "]"
   | some (.bls a j _) => "b[" ++ joinWith "," (sortStrs (a.map atomKey)) ++ "|" ++ joinWith "," (sortStrs (j.map toString)) ++ "]"
 
